@@ -6,9 +6,14 @@ What is proved here is about the model RigModel/Model/C03.lean (tied to the code
 correspondence harness):  the decision procedure that is run as oracle on every tree the real
 router returns is exactly the declarative property; a valid tree physically connects the source to
 every sink; A* paths; liveness of the disconnecting copy; hop geometry of the LDF walk.
+Round 2: the geometry functions duplicated in this model are proved equal to the C11 model's
+(Props/Cross03_11.lean), C11's distance theorems are transferred, and with them `nerNet_valid` is proved in
+full on the fault-free machine (mesh or torus, every size, radius, tape), together with the absence of every
+non-oracle error of `ner_net` / of `route()` on the fault-free machine.
+`aStar_complete` and `aStar_only_disconnected` are proved for every machine.
 NOT proved (validated per case by the oracle): chip-distinctness / connectedness after the repair
-loop (`avoidDeadLinks_valid`, false on the unrepaired code: defect F3), `nerNet_valid` in full,
-`aStar_complete`, absence of the non-`Disconnected` model errors.
+loop (`avoidDeadLinks_valid`, false on the unrepaired code: defect F3), absence of the non-`Disconnected`
+model errors of the repair loop itself (dfs fuel, "Cycle created" assertion) when the dead-link repair runs.
 -/
 import RigModel.Model.C03
 import RigModel.Lemmas.C03Tree
@@ -16,6 +21,12 @@ import RigModel.Lemmas.C03AStar
 import RigModel.Lemmas.C03Copy
 import RigModel.Lemmas.C03Ner
 import RigModel.Lemmas.C03Repair
+import RigModel.Lemmas.C03Forest
+import RigModel.Lemmas.C03NerValid
+import RigModel.Lemmas.C03AStarComplete
+import RigModel.Lemmas.C03AStarTotal
+import RigModel.Lemmas.C03Strong
+import RigModel.Props.Cross03_11
 set_option linter.unusedSimpArgs false
 set_option linter.unusedVariables false
 
@@ -85,13 +96,7 @@ theorem ldf_hops (m : Machine) (v : V3) (start : Chip) (t t' : Tape) (p : List (
 example : (ldf (2, 0, -1) (0, 0) 3 3 [5, 5, 5]).toOption = some ([(0, (1, 0)), (0, (2, 0)), (1, (0, 1))], []) := by
   decide
 
-/- Full statement aimed at (DESIGN 3/C03), NOT proved:
-   theorem nerNet_valid : on the fault-free w×h machine (mesh or torus, w,h ≥ 1), for all tapes, radii and
-   destination orders, `nerNet src dests w h wrap radius t = .ok (f, _)` and `toTree f leaves n src = some t`
-   imply `ValidTree m src sinks t`.
-   Proved part: the geometry clause of `hops` for every edge, on every machine size, both topologies,
-   every radius, destination order and tape.  Missing: chip-distinctness (needs "a shortest-vector walk never
-   revisits a chip", i.e. C11's distance theorem), in-bounds on the mesh, connectedness of the forest. -/
+/- `nerNet_valid` is proved in full below (round 2); this earlier part is kept. -/
 /-- **NER edges (part of `nerNet_valid`).**  Every edge `(parent, l, child)` of the forest `ner_net` builds
 satisfies `l < 6` and `child = parent + vec l (mod w, h)`. -/
 theorem nerNet_edges_partial (m : Machine) (src : Chip) (dests : List Chip) (wrap : Bool) (radius : Nat)
@@ -143,5 +148,225 @@ example : (match routeNet ⟨3, 3, [], [((0, 0), 0)]⟩ (0, 0) [(1, 0)] 1 [0, 0,
       [⟨1, (1, 0), 1, 2, 4⟩] false with
     | .ok r => r.repaired && (toTree r.forest r.leaves 10 r.root).isSome
     | .error _ => false) = true := by decide +kernel
+
+/-! ## Round 2: cross-model consistency with C11 (rig/geometry.py modelled twice) -/
+
+/-- **Same link tables.**  The tables generated for this model and for C11 are the same data: the
+`from_vector` table, the enumeration order, `to_vector` (= C11's specification vector), `opposite`. -/
+theorem cross_link_tables :
+    Gen.C03Links.fromVectorTable = Gen.Links.linkDirectionLookup ∧
+    Gen.C03Links.linkOrder = C11.allLinks ∧
+    (∀ l, l < 6 → C11.toVector l = some (vec l)) ∧
+    (∀ l, l < 6 → C11.specVec l = some (vec l)) ∧
+    (∀ l, l < 6 → opp l = C11.opposite l) ∧
+    (∀ d, d ∈ C11.hexSteps → fromVec d = C11.fromVector d.1 d.2) := Cross.tables_eq
+
+/-- **Same length functions** (`shortest_mesh_path_length`, `shortest_torus_path_length` for w, h ≥ 1) and same
+`minimise_xyz` / `shortest_mesh_path`. -/
+theorem cross_lengths (a b : Chip) :
+    meshLen a b = C11.meshLen (C11.toXyz a) (C11.toXyz b) ∧
+    (∀ w h : Nat, 1 ≤ w → 1 ≤ h → C11.torusLen (C11.toXyz a) (C11.toXyz b) w h = .ok (torusLen a b w h)) ∧
+    (∀ v : V3, minimise v = Cross.t3 (C11.minimiseXyz (Cross.v3 v))) ∧
+    meshPath a b = Cross.t3 (C11.meshPath (C11.toXyz a) (C11.toXyz b)) :=
+  ⟨Cross.meshLen_eq a b, fun w h hw hh => Cross.torusLen_eq a b w h hw hh, Cross.minimise_eq, Cross.meshPath_eq a b⟩
+
+/-- **Same `shortest_torus_path`**: every result of this model (draws read from the tape) is the result of C11's
+model for some legal values of C11's oracle inputs. -/
+theorem cross_torusPath (a b : Chip) (w h : Nat) (hw : 1 ≤ w) (hh : 1 ≤ h) (t t' : Tape) (v : V3)
+    (hp : torusPath a b w h t = .ok (v, t')) :
+    ∃ k0 k1 k2 k3 s : Nat, k0 < 1048576 ∧ k1 < 1048576 ∧ k2 < 1048576 ∧ k3 < 1048576 ∧
+      C11.torusPath (C11.toXyz a) (C11.toXyz b) w h 1048576 k0 k1 k2 k3 s = .ok (Cross.v3 v) :=
+  Cross.torusPath_eq a b w h hw hh t t' v hp
+
+/-- **Same `longest_dimension_first`.** -/
+theorem cross_ldf (v : V3) (start : Chip) (w h : Nat) (hw : 1 ≤ w) (hh : 1 ≤ h) (t t' : Tape)
+    (p : List (Nat × Chip)) (hl : ldf v start w h t = .ok (p, t')) :
+    ∃ j0 j1 j2 : Nat, j0 < 1048576 ∧ j1 < 1048576 ∧ j2 < 1048576 ∧
+      C11.ldf (Cross.v3 v) start (some (w : Int)) (some (h : Int)) 1048576 j0 j1 j2 = .ok p :=
+  Cross.ldf_eq v start w h hw hh t t' p hl
+
+/-- **Same `concentric_hexagons`** (centre (0, 0), as memoised by ner.py). -/
+theorem cross_hexagons (radius : Nat) : concentricHexagons radius = C11.concentricHexagons (radius : Int) (0, 0) :=
+  Cross.concentricHexagons_eq radius
+
+/-- **Same `links_between`**, and it is C11's specification list (C11.linksBetween_exact). -/
+theorem cross_linksBetween (m : Machine) (hw : 1 ≤ m.w) (hh : 1 ≤ m.h) (a b : Chip) :
+    linksBetween m a b = C11.specLinksBetween a b (Cross.mach m) ∧
+    C11.linksBetween a b (Cross.mach m) = some (linksBetween m a b) :=
+  Cross.linksBetween_eq m hw hh a b
+
+/-! ### C11's theorems, transferred to the functions the router model calls -/
+
+/-- the sort key / neighbour distance of `ner_net` on a mesh is the graph distance -/
+theorem meshLen_is_distance (a b : Chip) :
+    0 ≤ meshLen a b ∧ C11.IsDist none none a b (meshLen a b).toNat := by
+  have := C11.meshLen_eq_dist (C11.toXyz a) (C11.toXyz b)
+  rw [C11.toXyz_proj, C11.toXyz_proj, ← Cross.meshLen_eq] at this
+  exact this
+
+/-- the sort key / neighbour distance of `ner_net` on a torus is the graph distance of the `w × h` torus
+(every w, h ≥ 1, including 1 and 2) -/
+theorem torusLen_is_distance (a b : Chip) (w h : Nat) (hw : 1 ≤ w) (hh : 1 ≤ h) :
+    0 ≤ torusLen a b w h ∧
+    C11.IsDist (some (w : Int)) (some (h : Int)) (wrapC w h a) (wrapC w h b) (torusLen a b w h).toNat := by
+  obtain ⟨n, e1, e2⟩ := C11.torusLen_eq_dist (C11.toXyz a) (C11.toXyz b) w h (by omega) (by omega)
+  rw [Cross.torusLen_eq a b w h hw hh] at e1
+  simp only [Except.ok.injEq] at e1
+  have p1 : C11.projT (C11.toXyz a) w h = wrapC w h a := by simp [C11.projT, C11.toXyz, wrapC]
+  have p2 : C11.projT (C11.toXyz b) w h = wrapC w h b := by simp [C11.projT, C11.toXyz, wrapC]
+  rw [p1, p2] at e2
+  rw [e1]
+  exact ⟨by omega, by simpa using e2⟩
+
+/-- the memoised hexagon list searched by `ner_net`: duplicate-free, exactly the offsets within hexagonal
+(= graph) distance `radius`, nearest ring first, `1 + 3 r (r + 1)` of them -/
+theorem hexagons_exact (radius : Nat) :
+    (concentricHexagons radius).Nodup ∧
+    (∀ p, p ∈ concentricHexagons radius ↔ C11.hexDist (0, 0) p ≤ radius) ∧
+    (concentricHexagons radius).Pairwise (fun a b => C11.hexDist (0, 0) a ≤ C11.hexDist (0, 0) b) ∧
+    (concentricHexagons radius).length = 1 + 3 * radius * (radius + 1) := by
+  rw [cross_hexagons]; exact C11.hexagons_exact radius (0, 0)
+
+/-- **The torus route of `ner_net` is a shortest walk**: `shortest_torus_path` walked by
+`longest_dimension_first` from an in-range neighbour to an in-range destination, for every tape: a labelled walk
+over adjacent chips that ends at the destination, has exactly `shortest_torus_path_length` hops = the graph
+distance, and visits no chip twice. -/
+theorem torus_route (nb dest : Chip) (w h : Nat) (hw : 1 ≤ w) (hh : 1 ≤ h)
+    (hn : Cross.InBox w h nb) (hd : Cross.InBox w h dest)
+    (t t1 t2 : Tape) (v : V3) (path : List (Nat × Chip))
+    (hv : torusPath nb dest w h t = .ok (v, t1)) (hl : ldf v nb w h t1 = .ok (path, t2)) :
+    C11.walkOk (some (w : Int)) (some (h : Int)) nb path = true ∧ C11.lastPos nb path = dest ∧
+    (path.length : Int) = torusLen nb dest w h ∧
+    C11.IsDist (some (w : Int)) (some (h : Int)) nb dest path.length ∧
+    (nb :: path.map (·.2)).Nodup :=
+  Cross.torus_route nb dest w h hw hh hn.1 hn.2.1 hn.2.2.1 hn.2.2.2 hd.1 hd.2.1 hd.2.2.1 hd.2.2.2 t t1 t2 v path hv hl
+
+/-- **The mesh route of `ner_net` is a shortest walk that stays inside the machine** (no hop wraps around,
+although the code reduces every coordinate modulo width / height). -/
+theorem mesh_route (nb dest : Chip) (w h : Nat) (hw : 1 ≤ w) (hh : 1 ≤ h)
+    (hn : Cross.InBox w h nb) (hd : Cross.InBox w h dest) (t t2 : Tape) (path : List (Nat × Chip))
+    (hl : ldf (meshPath nb dest) nb w h t = .ok (path, t2)) :
+    C11.walkOk none none nb path = true ∧ C11.lastPos nb path = dest ∧
+    (path.length : Int) = meshLen nb dest ∧
+    (∀ c, c ∈ path.map (·.2) → Cross.InBox w h c) ∧
+    (nb :: path.map (·.2)).Nodup :=
+  Cross.mesh_route nb dest w h hw hh hn hd t t2 path hl
+
+/-- non-vacuity: on the 2 x 3 torus (1, 2) is one south-west hop from (0, 0) -/
+example : (torusPath (0, 0) (1, 2) 2 3 [5, 6, 7, 8, 0, 1, 2, 3]).toOption = some ((0, 0, 1), [0, 1, 2, 3]) ∧
+    (ldf (0, 0, 1) (0, 0) 2 3 [0, 1, 2, 3]).toOption = some ([(4, (1, 2))], [3]) := by decide +kernel
+
+/-! ## Round 2: `ner_net` yields a valid routing tree on the fault-free machine -/
+
+/-- **A well-formed forest unfolds to a tree with pairwise distinct chips.**  One entry per chip, children of
+a node pairwise distinct, one parent per node, a rank decreasing along every edge: then `toTree` succeeds with
+fuel above the rank of the root, the tree's chips are exactly the chips below the root, each exactly once, and
+every leaf placed on one of them is on the tree.  (The general step from the `{chip: node}` dictionary the
+code manipulates to the tree the property speaks about; also what a proof of `avoidDeadLinks_valid` needs.) -/
+theorem forest_unfolds {f : Forest} {rank : Chip → Nat} (hw : L.WF f rank) (leaves : List Leaf)
+    (fuel : Nat) (c : Chip) (hr : rank c < fuel) :
+    ∃ t, toTree f leaves fuel c = some t ∧ L.Unfolds f leaves c t :=
+  L.toTree_unfolds hw leaves fuel c hr
+
+/-- **`nerNet_valid`.**  On the fault-free `w × h` machine (no dead chip; with wrap-around: no dead link;
+without: only links that leave the rectangle may be dead), every w, h ≥ 1 including 1×N and 2×N, for every
+radius, every iteration order of the destinations and every content of the oracle tape (all tie-breaks and
+spiral counts): whenever `ner_net` returns, the forest it built unfolds to a tree that is a VALID routing tree
+for every set of sinks placed on the source chip or on destination chips - rooted at the source chip, chips
+pairwise distinct, every hop a working link of a working chip to the adjacent working chip, leaves exactly the
+sinks. -/
+theorem nerNet_valid (m : Machine) (wrap : Bool) (hff : L.FaultFree m wrap) (src : Chip) (dests : List Chip)
+    (radius : Nat) (t t' : Tape) (f : Forest) (sinks : List Sink)
+    (hs : InRange m src) (hd : ∀ d, d ∈ dests → InRange m d)
+    (hsk : ∀ s, s ∈ sinks → s.chip = src ∨ s.chip ∈ dests)
+    (hn : nerNet src dests m.w m.h wrap radius t = .ok (f, t')) :
+    ∃ tr, toTree f (expectedLeaves sinks) (f.length + 1) src = some tr ∧ ValidTree m src sinks tr :=
+  L.nerNet_valid m wrap hff src dests radius t t' f sinks hs hd hsk hn
+
+/-- **`ner_net` cannot fail** on chips inside the machine: the only errors of the model are oracle errors (tape
+too short, draw out of range).  In particular the code never creates a second node for a chip (`dupNode`, which
+would silently overwrite a tree node), never looks up a direction that is not a link (`KeyError`). -/
+theorem nerNet_only_oracle_errors (src : Chip) (dests : List Chip) (w h : Nat) (wrap : Bool) (radius : Nat)
+    (t : Tape) (e : Err) (hs : Cross.InBox w h src) (hd : ∀ d, d ∈ dests → Cross.InBox w h d)
+    (hn : nerNet src dests w h wrap radius t = .error e) : e = .tape ∨ e = .badDraw := by
+  have hw : 1 ≤ w := by have := hs.1; have := hs.2.1; omega
+  have hh : 1 ≤ h := by have := hs.2.2.1; have := hs.2.2.2; omega
+  exact L.nerNet_err hw hh hs hd hn
+
+/-- non-vacuity: a 2 x 5 torus (spiral draw), two destinations, radius 0 -/
+example : (match nerNet (0, 0) [(1, 3), (0, 4)] 2 5 true 0 [1, 2, 3, 4, 0, 5, 6, 7, 1, 2, 3, 4, 0, 5, 6, 7, 1, 1, 1, 1, 1, 1, 1] with
+    | .ok (f, _) => (toTree f [] (f.length + 1) (0, 0)).isSome && decide (f.length = 4)
+    | .error _ => false) = true ∧ L.FaultFree ⟨2, 5, [], []⟩ true := by
+  refine ⟨by decide +kernel, rfl, ?_⟩
+  intro c l h; simp at h
+
+/-- **`route()` on the fault-free machine** (`route_only_failure` and validity, fault-free case).  With no dead
+chip and no dead link (or, when `has_wrap_around_links()` is false, only wrap-around links dead), for every
+net whose vertices are inside the machine, every radius, tape, destination order: the dead-link repair is never
+entered; the model has no error other than an oracle error (no `Disconnected`, `KeyError`, assertion, `fuel`,
+`dupNode`); and the result unfolds to a valid routing tree rooted at the source chip. -/
+theorem routeNet_faultfree (m : Machine) (hff : L.FaultFree m (hasWrap m)) (src : Chip) (dests : List Chip)
+    (radius : Nat) (t : Tape) (order : List (Chip × Chip)) (sinks : List Sink) (legacy : Bool)
+    (hs : InRange m src) (hd : ∀ d, d ∈ dests → InRange m d)
+    (hsk : ∀ s, s ∈ sinks → s.chip = src ∨ s.chip ∈ dests) :
+    (∀ r, routeNet m src dests radius t order sinks legacy = .ok r →
+      r.repaired = false ∧ r.root = src ∧
+      ∃ tr, toTree r.forest r.leaves (r.forest.length + 1) r.root = some tr ∧ ValidTree m src sinks tr) ∧
+    (∀ e, routeNet m src dests radius t order sinks legacy = .error e → e = .tape ∨ e = .badDraw) :=
+  L.routeNet_faultfree m hff src dests radius t order sinks legacy hs hd hsk
+
+/-- non-vacuity: the 1 x 2 mesh (all ten wrap-around links dead) is fault-free for a net routed without
+wrap-around, and `has_wrap_around_links()` is false on it -/
+example : hasWrap ⟨1, 2, [], [((0, 0), 0), ((0, 0), 1), ((0, 0), 3), ((0, 0), 4), ((0, 0), 5), ((0, 1), 0),
+      ((0, 1), 1), ((0, 1), 2), ((0, 1), 3), ((0, 1), 4)]⟩ = false ∧
+    L.FaultFree ⟨1, 2, [], [((0, 0), 0), ((0, 0), 1), ((0, 0), 3), ((0, 0), 4), ((0, 0), 5), ((0, 1), 0),
+      ((0, 1), 1), ((0, 1), 2), ((0, 1), 3), ((0, 1), 4)]⟩ false := by
+  refine ⟨by decide, rfl, ?_⟩
+  intro c l h
+  refine ⟨rfl, ?_⟩
+  simp only [List.mem_cons, Prod.mk.injEq, List.not_mem_nil, or_false] at h
+  rcases h with ⟨rfl, rfl⟩ | ⟨rfl, rfl⟩ | ⟨rfl, rfl⟩ | ⟨rfl, rfl⟩ | ⟨rfl, rfl⟩ | ⟨rfl, rfl⟩ | ⟨rfl, rfl⟩ |
+    ⟨rfl, rfl⟩ | ⟨rfl, rfl⟩ | ⟨rfl, rfl⟩ <;> (show ¬ Cross.InBox _ _ _; unfold Cross.InBox; decide)
+
+/-- **`aStar_complete`.**  `a_star` reports `MachineHasDisconnectedSubregion` only if no chip of `sources`
+reaches the sink over working links between working chips (the search visits every chip from which the sink
+is reachable before giving up) - for every machine, dead chips and dead links included. -/
+theorem aStar_complete (m : Machine) (sink hsrc : Chip) (sources : List Chip) (wrap : Bool)
+    (hsink : InRange m sink) (h : aStar sink hsrc sources m wrap = .error .disconnected) :
+    ∀ s, s ∈ sources → ¬ Reach m s sink :=
+  L.aStar_complete m sink hsrc sources wrap hsink h
+
+/-- non-vacuity: on a 3 x 1 machine whose chip (1, 0) is dead and whose wrap links are dead, (2, 0) is cut off -/
+example : aStar (0, 0) (2, 0) [(2, 0)] ⟨3, 1, [(1, 0)], [((2, 0), 0), ((2, 0), 1), ((2, 0), 5), ((2, 0), 2),
+    ((2, 0), 4)]⟩ false = .error .disconnected := by rfl
+
+/-- **`a_star` raises nothing but the disconnected-machine error** - on every machine (any dead chips / links),
+for a sink inside the machine that is not itself one of the sources (as in `avoid_dead_links`): the fuel
+`w * h + 1` of the model's `while heap` loop is never exhausted (every iteration expands a different chip) and
+the walk back over `visited` never meets a missing key or a `None` predecessor.  Together with `aStar_path` and
+`aStar_complete`: `a_star` either returns a chain of working links from a source to the sink, or reports
+`MachineHasDisconnectedSubregion`, the latter only if no source reaches the sink. -/
+theorem aStar_only_disconnected (m : Machine) (sink hsrc : Chip) (sources : List Chip) (wrap : Bool)
+    (hsink : InRange m sink) (hns : sources.contains sink = false) (e : Err)
+    (h : aStar sink hsrc sources m wrap = .error e) : e = .disconnected :=
+  L.aStar_only_disconnected m sink hsrc sources wrap hsink hns e h
+
+/-- **The strong-connectivity oracle is sound.**  The harness decides the error clause ("if all working chips
+can reach each other the router succeeds") with the executable `stronglyConnected`; whenever it evaluates to
+true, every working chip does reach every working chip over working links between working chips. -/
+theorem stronglyConnected_sound (m : Machine) (hs : stronglyConnected m = true) (a b : Chip)
+    (ha : chipOk m a = true) (hb : chipOk m b = true) : Reach m a b :=
+  L.stronglyConnected_sound m hs a b ha hb
+
+/-- **On a strongly connected machine `a_star` succeeds** (sink a working chip that is not a source, at least
+one source a working chip - what `avoid_dead_links` passes).  This is the `a_star` part of
+`route_only_failure`. -/
+theorem aStar_succeeds (m : Machine) (hs : stronglyConnected m = true) (sink hsrc : Chip) (sources : List Chip)
+    (wrap : Bool) (hsink : chipOk m sink = true) (hns : sources.contains sink = false)
+    (hsrc' : ∃ s, s ∈ sources ∧ chipOk m s = true) : ∃ path, aStar sink hsrc sources m wrap = .ok path :=
+  L.aStar_succeeds m hs sink hsrc sources wrap hsink hns hsrc'
+
+/-- non-vacuity: a 3 x 3 machine with a dead chip and dead links that is still strongly connected -/
+example : stronglyConnected ⟨3, 3, [(1, 1)], [((0, 0), 0), ((2, 2), 3)]⟩ = true := by decide +kernel
 
 end Rig.C03
